@@ -6,7 +6,7 @@ from . import run as e2run
 
 class Lemma:
     def __init__(self, name, entry, files, opts=None, splits=None, desc="", bound="", known=(), scale=None, stopfn=None,
-                 stop=None, tags=None, intr=None, expect_reach=(), split_depth=0, replay_patches=()):
+                 stop=None, tags=None, intr=None, expect_reach=(), split_depth=0, replay_patches=(), abstract_witness=None):
         self.name = name
         self.entry = entry
         self.files = files            # harness file names (under /verif/harness)
@@ -22,6 +22,10 @@ class Lemma:
         self.intr = intr
         self.expect_reach = expect_reach
         self.replay_patches = replay_patches
+        # set (to the reason) for a lemma whose inputs include uninterpreted functions: a counterexample fixes values of those
+        # functions that the real helpers need not take, so it is replayed natively first and, when it does not reproduce,
+        # reported from the encoding (as the contract-precondition class is)
+        self.abstract_witness = abstract_witness
         self.split_depth = split_depth   # parallelise by the first k verifChoice calls
 
 
@@ -194,6 +198,16 @@ def finish_lemma(ctx, l, rs, files, known_active, prog):
             if ok:
                 reproduced = (v, line)
                 break
+        if reproduced is None and l.abstract_witness:
+            v, line = last
+            verdict = "sat"
+            ctx.sample({"lemma": l.name, "counterexample": v["replay"], "kind": v["kind"], "msg": v["msg"], "pos": v["pos"], "native": "abstract witness: " + line})
+            ctx.report_violation("%s: %s: %s (at %s); reported from the encoding: %s (native run on the model's inputs: %s)" % (
+                                 l.name, v["kind"], v["msg"], v["pos"], l.abstract_witness, line),
+                                 {"lemma": l.name, "entry": v["entry"], "files": [os.path.basename(f) for f in files],
+                                  "vec": [x for _, x in v["replay"]], "names": [n for n, _ in v["replay"]], "kind": v["kind"], "msg": v["msg"],
+                                  "abstract_witness": l.abstract_witness})
+            continue
         if reproduced is None:
             v, line = last
             ctx.report_inconclusive("%s: counterexample did not reproduce natively (%s) for %s %s at %s vec=%s" % (
